@@ -200,6 +200,27 @@ def check_setting(part, row, table_by_number):
             part.fail("lookup-reduced-str-raise:%s" % sk, "LATT+SYMM(string) round trip of %s raised %s" % (sk, type(e).__name__), case)
     except Exception as e:
         part.fail("reduce-raise:%s" % sk, "latt/reduced_symmetry_operations of %s raised %r" % (sk, e), case)
+    # a setting that went through pickle / copy.deepcopy / copy.copy is still the same setting: same operations, same LATT, and its
+    # reduced description is still looked up as this group
+    import copy
+    import pickle
+
+    for rname, dup in (("pickle", lambda x: pickle.loads(pickle.dumps(x))), ("deepcopy", copy.deepcopy), ("copy", copy.copy)):
+        part.tr()
+        try:
+            orig = SpaceGroup(n, choice=choice)
+            twin = dup(orig)
+            tcodes = sorted(int(x.integer_code) for x in twin.symmetry_operations)
+            ok_t = tcodes == sorted(codes) and twin.international_tables_number == n and twin.choice == orig.choice and twin.latt == orig.latt \
+                and bool(twin.centrosymmetric) == bool(orig.centrosymmetric) and twin.symbol == orig.symbol
+            if ok_t:
+                found = SpaceGroup.from_symmetry_operations(list(twin.reduced_symmetry_operations()), expand_latt=twin.latt)
+                ok_t = found.international_tables_number == n and sorted(int(x.integer_code) for x in found.symmetry_operations) == sorted(codes)
+            if not ok_t:
+                part.fail("copy-route:%s:%s" % (rname, sk), "SpaceGroup(%d, %r) after %s: %d operations (%d tabulated) / choice %r / LATT %s - no longer the tabulated setting"
+                          % (n, choice, rname, len(tcodes), len(codes), twin.choice, twin.latt), case)
+        except Exception as e:
+            part.fail("copy-route-raise:%s:%s" % (rname, sk), "SpaceGroup(%d, %r) through %s raised %r" % (n, choice, rname, e), case)
     # instances are independent: whatever a caller does to the operation list (or the operation objects) of one SpaceGroup
     # object, constructing / looking up the setting again gives the tabulated group
     try:
